@@ -74,7 +74,7 @@ const PANIC_TABLE: &[(&str, &str)] = &[
     ("generated_file_header should not be a multi-line", "config-multiline-header"),
     ("Lists are not supported here", "lists-not-supported"),
     ("Expected to find a variable defined at the root", "variable-not-defined-at-root"),
-    ("Expected query node to exist", "expected-query-node-to-exist"),
+    ("Expected `Query.node` to exist", "expected-query-node-to-exist"),
 ];
 
 /// narrow class of a panic message / of the CLI's stderr
@@ -778,6 +778,7 @@ fn run_det(f: &[&str]) -> String {
         ["det", w, s] => ("det", *w, s.parse::<u64>().unwrap_or(0)),
         ["detdiag", w] => ("detdiag", *w, 0),
         ["detdup", w] => ("detdup", *w, 0),
+        ["detep", w] => ("detep", *w, 0),
         _ => return "bad-request".into(),
     };
     let Some(mut p) = from_wire(wire) else { return "bad-wire".into() };
@@ -790,6 +791,25 @@ fn run_det(f: &[&str]) -> String {
             return "no-field".into();
         }
         p.decls.push((other, d));
+    }
+    if op == "detep" {
+        // a second declaration of one entrypoint, in another file, with `@lazyLoad` toggled: the compiler
+        // reports the conflict at one of the two declarations
+        let Some((path, Decl::Entrypoint(e))) = p.decls.iter().find(|(_, d)| d.is_entrypoint()).cloned() else {
+            return "no-entrypoint".into();
+        };
+        let root = p.options.project_root.trim_start_matches("./").trim_end_matches('/').to_string();
+        let other = format!("{root}/zz_ep_{}.ts", e.name);
+        if other == path {
+            return "no-entrypoint".into();
+        }
+        let mut e2 = e.clone();
+        if e2.directives.iter().any(|d| d.name == "lazyLoad") {
+            e2.directives.retain(|d| d.name != "lazyLoad");
+        } else {
+            e2.directives.push(Directive::lazy_load());
+        }
+        p.decls.push((other, Decl::Entrypoint(e2)));
     }
     let files = render(&p, &RenderOpts::default());
     let runs = if op == "det" { 3 } else { 5 };
@@ -812,7 +832,14 @@ fn run_det(f: &[&str]) -> String {
             let all_multi = outs.iter().all(|o| {
                 o.text.contains("Multiple definitions") || o.text.contains("multiple definitions") || o.text.contains("defined multiple")
             });
-            let class = if all_multi { "duplicate-definition-location" } else { "text" };
+            let all_lazy = outs.iter().all(|o| o.text.contains("declared lazy in one location"));
+            let class = if all_multi {
+                "duplicate-definition-location"
+            } else if all_lazy {
+                "lazy-eager-conflict-location"
+            } else {
+                "text"
+            };
             return format!("differ:diagnostics:{class}\trun={k}");
         }
     }
@@ -844,7 +871,7 @@ fn gen_det(r: &mut Rng, i: u64) -> Vec<String> {
             Some((q, _)) => vec![format!("detdiag\t{}", to_wire(&q))],
             None => vec![format!("det\t{}\t{}", to_wire(&p), r.next() % 1000)],
         },
-        9 => vec![format!("detdup\t{}", to_wire(&p))],
+        9 => vec![format!("{}\t{}", if (i / 10) % 2 == 0 { "detdup" } else { "detep" }, to_wire(&p))],
         _ => vec![format!("det\t{}\t{}", to_wire(&p), r.next() % 1000)],
     }
 }
@@ -869,6 +896,9 @@ fn crash_class(c: &Cli, cyclic: bool) -> String {
                 "silent:no-diagnostic".into()
             }
         }
+        // `create_config` reports every problem of the configuration file by panicking with a message; the
+        // property quantifies over well-formed configurations, so such inputs are outside it
+        "panic" if c.text.contains("panicked at crates/isograph_config/") => "config-rejected".into(),
         "panic" => format!("panic:{}", panic_sig(&c.text)),
         "timeout" => "timeout".into(),
         s if s.starts_with("signal:") => {
@@ -890,7 +920,9 @@ fn stream_opts(stream: &str) -> GenOpts {
     let d = GenOpts::default();
     match stream {
         "cycle" => GenOpts { allow_cycles: true, ..d },
-        "lwrs" => GenOpts { loadable_without_refetch_strategy: true, pct_loadable: 70, ..d },
+        // `Query.node` always present: its absence is a different panic (stream `lwrsn`)
+        "lwrs" => GenOpts { loadable_without_refetch_strategy: true, pct_loadable: 70, pct_node_interface: 100, ..d },
+        "lwrsn" => GenOpts { loadable_without_refetch_strategy: true, pct_loadable: 70, pct_node_interface: 0, ..d },
         "ptu" => GenOpts { pointer_to_unfetchable: true, pct_pointer: 60, ..d },
         "lnr" => GenOpts { loadable_with_nested_refetch: true, pct_loadable: 60, pct_special_fields: 40, ..d },
         "vas" => GenOpts { vars_to_client_fields_under_as: true, pct_variable: 80, ..d },
@@ -962,6 +994,24 @@ fn run_crash(f: &[&str]) -> String {
             };
             let main = if agree { main } else { format!("mismatch:cli={}:inproc={}", cli.class(), inproc) };
             format!("{main}\tstream={stream}\tcli={}\tinproc={}\tcyclic={}", cli.class(), inproc, flag(cyclic))
+        }
+        ["cof", _name, files_hex] => {
+            // hand-written witness: a JSON object {relative path: file text}
+            let Some(bytes) = unhex(files_hex) else { return "bad-hex".into() };
+            let Ok(serde_json::Value::Object(m)) = serde_json::from_slice::<serde_json::Value>(&bytes) else {
+                return "bad-json".into();
+            };
+            let mut files = Files::new();
+            for (k, v) in m {
+                files.insert(PathBuf::from(k), v.as_str().unwrap_or("").as_bytes().to_vec());
+            }
+            let cli = match run_cli(&files, false) {
+                Ok(c) => c,
+                Err(e) => return format!("cli-error\t{}", hexs(&e)),
+            };
+            // a cycle is recognised by the overflow message only: these inputs have no structured form
+            let main = crash_class(&cli, cli.text.contains("has overflowed its stack"));
+            format!("{main}\tstream=files\tcli={}", cli.class())
         }
         ["raw", demo, file_idx, op, off, data] => {
             let Some(mut files) = load_demo(demo) else { return "no-demo".into() };
@@ -1098,7 +1148,7 @@ fn gen_crash(r: &mut Rng, i: u64) -> Vec<String> {
             vec![format!("co\tptu\t{}", to_wire(&p))]
         }
         9 | 10 => {
-            let s = *r.pick(&["lnr", "vas", "xtp", "pv", "upv"]);
+            let s = *r.pick(&["lnr", "vas", "xtp", "pv", "upv", "lwrsn"]);
             let p = generate(r, &stream_opts(s));
             vec![format!("co\t{s}\t{}", to_wire(&p))]
         }
@@ -1144,8 +1194,8 @@ fn main() {
             "ovl" | "ovlnc" => run_overloads(f),
             "hole" => run_holes(f),
             "artsp" | "artsi" | "artsdemop" | "artsdemoi" => run_arts(f),
-            "det" | "detdiag" | "detdup" => run_det(f),
-            "cm" | "co" | "raw" | "watch" => run_crash(f),
+            "det" | "detdiag" | "detdup" | "detep" => run_det(f),
+            "cm" | "co" | "cof" | "raw" | "watch" => run_crash(f),
             // debugging aid: write the rendered project below /tmp/arts/<name>
             "dump" if f.len() == 3 => match from_wire(f[2]) {
                 Some(p) => {
